@@ -198,6 +198,16 @@ class ListField(Field):
         if not self.field or isinstance(self.field, AnyField):
             return value
 
+        if (
+            isinstance(value, ListProxy)
+            and value.list_field is self
+            and value.cfg is cfg
+        ):
+            # already this field's validated list for this configuration (built by to_python while loading, or the
+            # held value being re-validated): keep it, so that item configurations stay owned by the list that is
+            # actually stored and not by a throw-away copy
+            return value
+
         proxy = ListProxy(cfg, self, value)
         return proxy
 
